@@ -11,6 +11,7 @@ transforms:
   retvar     return E  ->  _ret = E; return _ret
   kworder    keyword arguments of every call in reverse order
   ifinvert   if c: A else: B  ->  if not c: B else: A   (plain if/else only)
+  combo      all six applied together
   rename     every purely local variable v of a function renamed v_r  (parameters, globals, closure variables untouched)
 """
 import ast, sys, os, json, copy, multiprocessing as mp
@@ -149,7 +150,17 @@ class Rename(ast.NodeTransformer):
         return c
 
 
-TRANSFORMS = {"flipcmp": FlipCmp, "commute": Commute, "retvar": RetVar, "kworder": KwOrder, "ifinvert": IfInvert, "rename": Rename}
+class Combo(ast.NodeTransformer):
+    """all of the above, one after the other"""
+
+    def visit(self, tree):
+        for T in (Rename, FlipCmp, Commute, KwOrder, IfInvert, RetVar):
+            tree = T().visit(tree)
+            ast.fix_missing_locations(tree)
+        return tree
+
+
+TRANSFORMS = {"flipcmp": FlipCmp, "commute": Commute, "retvar": RetVar, "kworder": KwOrder, "ifinvert": IfInvert, "rename": Rename, "combo": Combo}
 
 
 def transformed_sources(tname):
@@ -216,8 +227,8 @@ if __name__ == "__main__":
         if viol or errs:
             bad += 1
             print(f"== {t} {p}: {len(viol)} violation(s), {len(errs)} analysis error(s)")
-            for v in viol[:4]:
+            for v in viol[:40]:
                 print("   V", v)
-            for e in errs[:4]:
+            for e in errs[:40]:
                 print("   E", e)
     print(f"{len(res)} (transform, property) pairs, {bad} not silent")
